@@ -29,10 +29,13 @@ static inline int va_should_fail(void) {
     if (va_fail_at > 0 && (va_calls == va_fail_at || (va_fail_from && va_calls > va_fail_at))) { va_failed++; errno = ENOMEM; return 1; }
     return 0;
 }
-void *__wrap_malloc(size_t n) { if (va_should_fail()) return NULL; void *p = __real_malloc(n); if (p) va_live++; return p; }
-void *__wrap_calloc(size_t a, size_t b) { if (va_should_fail()) return NULL; void *p = __real_calloc(a, b); if (p) va_live++; return p; }
+/* a request no machine can satisfy is refused here, as the allocator would, without filling the sanitizer's log */
+#define VA_IMPOSSIBLE ((size_t)1 << 48)
+void *__wrap_malloc(size_t n) { if (va_should_fail()) return NULL; if (n > VA_IMPOSSIBLE) { errno = ENOMEM; return NULL; } void *p = __real_malloc(n); if (p) va_live++; return p; }
+void *__wrap_calloc(size_t a, size_t b) { if (va_should_fail()) return NULL; if (a > VA_IMPOSSIBLE || b > VA_IMPOSSIBLE) { errno = ENOMEM; return NULL; } void *p = __real_calloc(a, b); if (p) va_live++; return p; }
 void *__wrap_realloc(void *o, size_t n) {
     if (va_should_fail()) return NULL;
+    if (n > VA_IMPOSSIBLE) { errno = ENOMEM; return NULL; }
     void *p = __real_realloc(o, n);
     if (o == NULL && p) va_live++;
     else if (o != NULL && n == 0 && p == NULL) va_live--;
